@@ -320,10 +320,18 @@ def find_irrelevant_type(etype: tp.Type, types: List[tp.Type],
         return None
 
     if isinstance(etype, tp.TypeParameter):
-        if etype.bound is None or etype.bound == factory.get_any_type():
-            return choose_type(types, only_regular=True)
-        else:
-            etype = etype.bound
+        # A type variable may be bounded by another type variable: what
+        # matters is the first bound that is not a type variable.
+        bound = etype.bound
+        while bound is not None and bound.is_type_var():
+            bound = bound.bound
+        if bound is None or bound == factory.get_any_type():
+            # Every type but the top type is irrelevant to such a variable.
+            return choose_type(
+                [t for t in types
+                 if _cls2type(t) != factory.get_any_type()],
+                only_regular=True)
+        etype = bound
 
     types = [_cls2type(t) for t in types]
     supertypes = find_supertypes(etype, types, include_self=True,
